@@ -349,8 +349,14 @@ func (e *vEngine) runCrash(x *vCtx, out map[string]interface{}) {
 	j.arrival = -1
 	j.hook = nil
 	out["steps"] = steps
+	units := j.units[:len(j.units):len(j.units)]
+	// "A run without the crash" that is fed the same blocks again: the reference for convergence is the
+	// crash-free node after a SECOND delivery of all arrivals (a block dropped by the first-wins orphan
+	// pool in the first pass is connected in the second one, exactly as on the restarted node).
+	for i := range c.Arrivals {
+		e.arrive(n, x, i)
+	}
 	out["final"] = e.final(n, x)
-	units := j.units
 	fChain, fState := cj.snapshot(), sj.snapshot()
 
 	uj := []interface{}{}
@@ -434,6 +440,7 @@ func (e *vEngine) runCrash(x *vCtx, out map[string]interface{}) {
 		rec["legit_mid"] = mid
 		// replay all arrivals on the recovered node
 		rerrs := 0
+		for pass := 0; pass < 2; pass++ {
 		for i := range c.Arrivals {
 			r.cc.lib = 0
 			if i < len(c.Lib) {
@@ -443,6 +450,7 @@ func (e *vEngine) runCrash(x *vCtx, out map[string]interface{}) {
 				rerrs++
 			}
 			r.drainVerifier()
+		}
 		}
 		rec["replay_errs"] = rerrs
 		rec["replay_best"] = bestOf(r.cs)
